@@ -10,12 +10,15 @@ import treegen
 KEYS = ("op", "node", "child", "a", "b", "flow", "upd", "date", "exc", "trades", "impl")
 
 
+DEFAULTS = {"child": 1, "a": [0, 1], "b": [0, 1], "flow": True, "upd": True, "date": 0, "trades": []}
+
+
 def slim(tr):
     evs = []
     for e in tr["events"]:
         if "impl" not in e:
             break
-        x = {k: e[k] for k in KEYS}
+        x = {k: e.get(k, DEFAULTS.get(k)) for k in KEYS}
         x["settle"] = bool(e.get("driver_settled", False))
         evs.append(x)
     return {"tid": tr["tid"], "C": tr["C"], "events": evs}
@@ -33,6 +36,34 @@ def _run(args):
     g = treegen.HistoryGen(rng, C, **gkw)
     tr = treedrv.run_online(C, g, tid=idx + 1, lazy=False, impl=True)
     return tr
+
+
+def _run_prog(args):
+    import btdrv
+    import btgen
+
+    seed, i, family = args
+    prog = btgen.prog_by_family(seed, i, family)
+    out = btdrv.run_program(prog, tid0=10 * i, seed=seed * 131 + i, lazy=False, impl=True)
+    return [t for t in out["traces"] if t["label"] == "main"]
+
+
+def stage_bt(rep, n, seed, families=("flat", "nested", "flows")):
+    """The same conformance on whole backtests (children created up front)."""
+    res = common.pool_map(_run_prog, [(seed + 17, i, list(families)) for i in range(n)], chunksize=2)
+    traces = [t for r in res for t in r]
+    slims = [s for s in (slim(t) for t in traces) if s["events"]]
+    v, st = common.validate_parallel("Trace_BtImpl", slims, batch=25)
+    rep.add_tlc(st["generated"], st["distinct"], key="conformance:Trace_BtImpl(backtests)", seconds=round(st["seconds"], 1), traces=len(slims))
+    counts = {}
+    drift = []
+    for tid, x in sorted(v.items()):
+        counts[x["verdict"]] = counts.get(x["verdict"], 0) + 1
+        if x["verdict"] == "DRIFT" and len(drift) < 5:
+            drift.append({"tid": tid, "event": x["at"], "fields": x["clauses"][:12]})
+    rep.extra["impl_conformance_backtests"] = {"programs": n, "traces": len(slims), "events": sum(len(t["events"]) for t in slims), "verdicts": counts, "drift_samples": drift}
+    rep.cov["traces_validated_against_impl"] += len(v)
+    return traces, v
 
 
 def stage(rep, n, seed, kw=None):
